@@ -244,11 +244,21 @@ def collision_scripts(rng, n, conflicting_returns=True, shadow_helpers=True):
                  ("lcd = LCD(i2c_addr=39)\nlcd.progress(0, 50)\n", "lcd = LCD(i2c_addr=39)\nlcd.progress(0, 50.0, max_value=100)\n"), ("led = Led(13)\nled.set_brightness(1)\n", "led = Led(13)\nled.set_brightness(True)\n"),
                  ("m = DCMotor(2, 4, 5)\nm.set_speed(1)\n", "m = DCMotor(2, 4, 5)\nm.set_speed(1.0)\nm.set_speed(True)\n")) if shadow_helpers else ():
         out += [HDR + b, HDR + a, HDR + b, HDR + a]
+    # every kind the emitter hoists out of the main loop, declared at the top of its body (a Program is emitted twice by the digest)
+    out += [HDR + "while True:\n    sv = Servo(9)\n    sv.write(10)\n    sleep(5)\n", HDR + "lcd = LCD(i2c_addr=39)\nwhile True:\n    led = Led(13)\n    sv = Servo(9)\n    m = DCMotor(2, 4, 5)\n    led.toggle()\n    sv.write(1)\n    sleep(5)\n",
+            HDR + "while True:\n    b = Button(2)\n    p = Potentiometer(\"A0\")\n    u = Ultrasonic(7, 8)\n    r = RGBLed(9, 10, 11)\n    mon.write(p.read())\n    sleep(5)\n"] if shadow_helpers else []
     # helpers with the same names but another call graph / other devices behind the same text
     out += [HDR + "def first():\n    return flash(1)\ndef flash(n):\n    return n\nq = first()\n", HDR + "def first():\n    return 1\ndef flash(n):\n    return n + 1\nq = first()\nw = flash(2)\nmon.write(w)\n",
             HDR + "lamp = Led(13)\ndef wake():\n    lamp.on()\n    return 1\nq = wake()\n", HDR + "lamp = RGBLed(9, 10, 11)\ndef wake():\n    lamp.on()\n    return 1\nq = wake()\n",
             HDR + "def quiet():\n    bz.stop()\n    return 0\nbz = Buzzer(8)\nq = quiet()\n", HDR + "bz = Buzzer(8)\ndef quiet():\n    bz.stop()\n    return 0\nq = quiet()\n",
             HDR + "lamp = Led(13)\ndef wake():\n    lamp.on()\n    return 1\nq = wake()\n"] if shadow_helpers else []
+    # one helper called with three or more argument-type shapes, some of which fold into the same specialisation because the body
+    # coerces a parameter (the set of specialisations and their order must not depend on set iteration)
+    for body, calls in (("return value + \": \"", ["tag(1, 2)", "tag(\"x\", 2)", "tag(1, 2.5)", "tag(\"y\", 0.5)", "tag(2.5, 1)"]),
+                        ("n = n + 0.5\n    return n", ["tag(1, 2)", "tag(1, 2.5)", "tag(1.5, 2)", "tag(\"s\", 2)", "tag(True, 2)"]),
+                        ("return n", ["tag(1, 1)", "tag(1.5, 1)", "tag(\"a\", 1)", "tag(True, 1)", "tag([1], 1)", "tag(1, 1.5)", "tag(1, \"b\")"])) if shadow_helpers else ():
+        for order in (calls, list(reversed(calls)), calls[2:] + calls[:2]):
+            out.append(HDR + f"def tag(value, n):\n    {body}\n" + "\n".join(f"r{i} = {c}" for i, c in enumerate(order)) + "\n")
     # helpers whose return statements disagree on the type (rejected today: whatever happens instead must not depend on set order)
     for a, b in (("[1, 2, 3]", "[0.5, 1.5, 2.5]"), ("[1, 2]", '["a", "b"]'), ('"a"', "2.5"), ("True", "[1]")) if conflicting_returns else ():
         out.append(HDR + f"def pick(k):\n    if k > 0:\n        return {a}\n    elif k < 0:\n        return {b}\n    return {a}\nxs = pick(1)\nys = pick(-1)\n")
